@@ -32,7 +32,7 @@ Lemma step_ok_model c f o :
   agrees c f -> step_ok c (limits f) o (snd (step f o)) (limits (fst (step f o))).
 Proof.
   intros [A1 [A2 [A3 [A4 A5]]]] Hk. assert (Hf : fk f = HwMon) by congruence.
-  destruct o as [d|v b|v b|v b]; try reflexivity.
+  destruct o as [d|v b|v b|v b|k r]; try reflexivity; [|split; reflexivity].
   destruct d as [|kv t].
   - rewrite empty_refused by exact Hf. split; reflexivity.
   - set (d := kv :: t).
